@@ -105,7 +105,12 @@ func monotoneLoop(fn *ssa.Function, L *loopInfo) *countedLoop {
 
 // smallDomain: the integer values the facts leave for term tv (at most max).
 func smallDomain(tv *Term, fs []Fact, max int) ([]int64, bool) {
-	lo, hi := int64(-1<<62), int64(1<<62)
+	return smallDomainIn(tv, fs, int64(-1<<62), int64(1<<62), max)
+}
+
+// smallDomainIn: smallDomain with bounds known beforehand (e.g. 0..7 for the
+// major type of a CBOR head byte).
+func smallDomainIn(tv *Term, fs []Fact, lo, hi int64, max int) ([]int64, bool) {
 	if tv.Op == "binop" && tv.S == "&" && len(tv.Args) == 2 {
 		for _, a := range tv.Args {
 			if m, ok := termConstInt(a); ok && m >= 0 {
